@@ -1466,6 +1466,7 @@ _uri.install(EXTERNALS, _fn)
 
 # ------------------------------------------------------------------ numpy (1-D arrays; added for C13 / C16)
 _np.install(EXTERNALS, _fn)
+_np.install_c13(EXTERNALS, _fn)       # np.argmax, np.fromiter(dtype=int).astype().tobytes()
 
 
 # ------------------------------------------------------------------ builtin map (lazy, as in CPython; added for C13)
